@@ -66,6 +66,7 @@ def to_impl(fd):
 
 WARMUPS = [0]
 OUT_VARIANTS = [0]
+INT_TABLES = [0]
 OUT_MISMATCH = []
 
 
@@ -74,6 +75,10 @@ def impl_apply(fn, f, g, args):
     from mbi import Domain, Factor
     F = to_impl(f)
     G = to_impl(g) if g is not None else None
+    if fn in ('div', 'mul', 'add', 'sub') and np.all(np.isfinite(F.values)) and np.array_equal(F.values, np.round(F.values)) and (len(f['vals']) + len(fn)) % 2 == 0:
+        # a hand-built table of counts may be stored with an integer element type: the operation is the same
+        F = Factor(F.domain, F.values.astype(np.int64))
+        INT_TABLES[0] += 1
     try:
         with np.errstate(all='ignore'):
             # a history on the operand: the same read-only operation asked before, with the attributes in another order
@@ -402,6 +407,7 @@ def run(res, drv, tier, seed):
             res.violation('correspondence', f'Factor.{fn}: model and implementation differ ({d}); '
                           'the by-name specification holds on this input', dict(replay, model=resp, stream='C14.factor'))
     res.extra['out_variants_compared_with_pure'] = OUT_VARIANTS[0]
+    res.extra['left_operands_stored_as_integer_tables'] = INT_TABLES[0]
     for fn_, f_, pure_, inpl_ in OUT_MISMATCH[:3]:
         res.violation('failing-input', f'Factor.{fn_}(out=...) disagrees with the pure Factor.{fn_}(): first cells pure {pure_}, in place {inpl_}',
                       {'request': {'op': 'factor', 'fn': fn_, 'f': f_, 'g': None, 'args': {}, 'k': 'f', 'out_variant': True}, 'observed': inpl_, 'expected': pure_},
